@@ -25,14 +25,14 @@ var shortNames = [][2]string{
 }
 
 var shortOf = map[string]string{
-	"http://etherx.jabber.org/streams":       "ns_stream",
-	"urn:ietf:params:xml:ns:xmpp-streams":    "ns_stream_error",
-	"jabber:client":                          "ns_client",
-	"jabber:server":                          "ns_server",
-	"urn:ietf:params:xml:ns:xmpp-framing":    "ns_ws",
-	"urn:ietf:params:xml:ns:xmpp-bind":       "ns_bind",
-	"http://www.w3.org/XML/1998/namespace":   "ns_xml",
-	"":                                       "[]",
+	"http://etherx.jabber.org/streams":     "ns_stream",
+	"urn:ietf:params:xml:ns:xmpp-streams":  "ns_stream_error",
+	"jabber:client":                        "ns_client",
+	"jabber:server":                        "ns_server",
+	"urn:ietf:params:xml:ns:xmpp-framing":  "ns_ws",
+	"urn:ietf:params:xml:ns:xmpp-bind":     "ns_bind",
+	"http://www.w3.org/XML/1998/namespace": "ns_xml",
+	"":                                     "[]",
 }
 
 var imports = func() string {
